@@ -20,6 +20,7 @@ CheckOf(e) ==
     [] e.e = "Reply" -> ReplyCheck(e)
     [] e.e = "Read" -> ReadCheck(e)
     [] e.e = "Write" -> WriteCheck(e)
+    [] e.e = "Wire" -> WireCheck(e)
     [] OTHER -> "harness.unknownEvent"
 
 TNext == /\ verdict = "ok"
